@@ -178,6 +178,9 @@ func (n *UploadPackSession) receiveObjects(pr *packfile.PackfileReader) (stateFn
 		if err != nil {
 			return nil, fmt.Errorf("error requesting upload pack (state=receiveObjects): %w", err)
 		}
+		if pr == nil {
+			return nil, fmt.Errorf("error requesting upload pack (state=receiveObjects): expected a packfile")
+		}
 	}
 	defer pr.Close()
 	doneReceiving, err := n.receiver.Receive(pr, n.bar)
